@@ -14,6 +14,7 @@ RULE = ("explicit-state BFS: bases {float(4,), float(2,3), float(2,2,2), complex
         "add_sensitivity with None / fresh array (mutated afterwards by the harness) / same object twice / same object "
         "to two signals, reset(default|keep|drop) on base, reset on slices); every operation is compared with the model "
         "through the base AND every slice; a state is distinct by full byte content; non-trivial = a sensitivity exists")
+RULE += " Extended in seeding rounds 6-7:  sensitivity arrays with inf/nan entries, slice sensitivity assigned a view of other entries of its base."
 ASSUMPTIONS = ["pymoto.core_objects.get_init_str (diagnostic source-location string, costs ~0.5 ms per object via "
                "inspect.stack) is replaced from outside by a constant during this check; it does not take part in the "
                "semantics under test",
